@@ -24,9 +24,10 @@ TResult == /\ More /\ Cur.ev = "result"
            /\ pc \in {"connected", "failed"} /\ pc = Cur.outcome /\ adopted = Cur.adopted
            /\ l' = l + 1 /\ UNCHANGED vars
 TReq == /\ More /\ Cur.ev = "req" /\ Request /\ sent'[Len(sent')] = Cur.v /\ l' = l + 1
+TReconnect == /\ More /\ Cur.ev = "reconnect" /\ Reconnect /\ Cur.discoveries = (IF enforced = None THEN 1 ELSE 0) /\ l' = l + 1
 Silent == /\ More /\ Cur.ev = "result" /\ (Enforce \/ Scan \/ Adopt) /\ UNCHANGED l
 
-TraceNext == TConf \/ TOffer \/ TReply \/ TResult \/ TReq \/ Silent
+TraceNext == TReconnect \/ TConf \/ TOffer \/ TReply \/ TResult \/ TReq \/ Silent
 TraceSpec == TraceInit /\ [][TraceNext]_tvars
 TraceInv == pc # "reset" => Inv
 
